@@ -304,7 +304,91 @@ def s07_generated(ctx):
     return res
 
 
-STREAMS = [s07_crop, s07_network, s07_generated]
+def s07_generated_crop(ctx):
+    """translator validation: the REGENERATED crop_to_target_areas (compiled into gen_c07) vs the real function with a SCRIPTED gpd.clip"""
+    import_fractopo()
+    import geopandas as gpd
+    from shapely.geometry import GeometryCollection, LineString, MultiLineString, Point, box
+
+    import fractopo.general as fg
+    from harness.common import parse_resp, rng_for
+
+    res = StreamResult("S07-generated-crop", rule="regenerated crop_to_target_areas (Lean, compiled: type check, pre-filter, clip row by row, collection explode, type filter, regenerated "
+                       "dissolve, minimum-length filter) vs the real function whose gpd.clip is scripted per row: nothing / long line / line below MINIMUM_LINE_LENGTH / point / "
+                       "multi-line of 2-3 parts / multi-line with a short part / collection of line + point / of multi-line + point / of short line + point; rows outside "
+                       "the areas' bounding box (never candidates); a multi-part INPUT row with and without allow_multilinestring_input; is_filtered on / off; every index "
+                       "kind; compared: the multiset of (row data, piece) or the exception; non-trivial = a collection or multi-part clip result")
+    if ctx.gen is None:
+        res.note = "gen_c07 not built (a generated module is broken): skipped"
+        res.skipped["generated_driver_not_built"] = 1
+        return res
+    rng = rng_for(ctx.seed, "S07gc")
+    SCRIPTS = ["n", "l", "l", "s", "p", "m2", "m3", "ms", "c", "c", "cm", "cs"]
+
+    def line(pid, short=False):
+        return LineString([(float(pid), 0.0), (float(pid), 1e-19 if short else 1.0)])
+
+    def scripted(uid, code):
+        b = uid * 100
+        return {"l": lambda: line(b), "s": lambda: line(b, True), "p": lambda: Point(float(b), 0.5),
+                "m2": lambda: MultiLineString([line(b + 1), line(b + 2)]), "m3": lambda: MultiLineString([line(b + 1), line(b + 2), line(b + 3)]),
+                "ms": lambda: MultiLineString([line(b + 1, True), line(b + 2)]), "c": lambda: GeometryCollection([line(b + 1), Point(float(b + 2), 0.5)]),
+                "cm": lambda: GeometryCollection([MultiLineString([line(b + 11), line(b + 12)]), Point(float(b + 2), 0.5)]),
+                "cs": lambda: GeometryCollection([line(b + 1, True), Point(float(b + 2), 0.5)])}[code]()
+
+    cases, reqs = [], []
+    for _ in range(budget(ctx.tier, 300, 5000)):
+        n = rng.randint(1, 7)
+        spec = []
+        for u in range(n):
+            inside = rng.random() < 0.85
+            kind = 101 if rng.random() < 0.06 else 100
+            spec.append((u, kind, rng.choice(SCRIPTS) if inside else "n", inside))
+        filt, allow = rng.random() < 0.3, rng.random() < 0.5
+        window = [u for u, _, _, inside in spec if inside or filt]
+        cases.append((spec, filt, allow))
+        reqs.append("gcrop rows=" + ";".join(f"{u}:{k}:{c}" for u, k, c, _ in spec) + " window=" + ",".join(str(u) for u in window) + f" filt={int(filt)} allow={int(allow)}")
+    resps = ctx.gen.parallel(reqs)
+    real_clip = gpd.clip
+    for (spec, filt, allow), req, resp in zip(cases, reqs, resps):
+        res.evaluations += 1
+        geoms = []
+        for u, kind, code, inside in spec:
+            x = 5.0 + u if inside else 500.0 + u  # rows outside the areas' bounding box are no candidates of the pre-filter
+            geoms.append(LineString([(x, 1.0), (x, 2.0)]) if kind == 100 else MultiLineString([[(x, 1.0), (x, 2.0)], [(x, 3.0), (x, 4.0)]]))
+        n = len(spec)
+        idx = rng.choice([list(range(n)), [7 * i + 3 for i in range(n)], [i // 2 for i in range(n)], [f"r{i}" for i in range(n)]])
+        frame = gpd.GeoDataFrame({"uid": [u for u, _, _, _ in spec]}, geometry=geoms, index=idx)
+        script = {u: c for u, _, c, _ in spec}
+
+        def fake_clip(cand, areas_, script=script):
+            keep = [script[u] != "n" for u in cand["uid"]]
+            out = cand.loc[keep].copy()
+            out["geometry"] = [scripted(u, script[u]) for u in out["uid"]]
+            return out
+
+        gpd.clip = fake_clip
+        try:
+            out = fg.crop_to_target_areas(frame, gpd.GeoDataFrame(geometry=[box(0, 0, 100, 10)]), is_filtered=filt, keep_column_data=True, allow_multilinestring_input=allow)
+            want = "rows=" + ";".join(sorted(f"{u}:{int(round(g.coords[0][0]))}" for u, g in zip(out["uid"], out.geometry.values)))
+        except (ValueError, TypeError) as e:
+            want = "err=" + type(e).__name__
+        finally:
+            gpd.clip = real_clip
+        r = resp.strip()
+        got = ("rows=" + ";".join(sorted(x for x in r[5:].split(";") if x))) if r.startswith("rows=") else r
+        res.nontrivial += int(any(c in ("m2", "m3", "ms", "c", "cm", "cs") for _, _, c, _ in spec))
+        for _, _, c, _ in spec:
+            res.distribution[c] = res.distribution.get(c, 0) + 1
+        res.distribution["raises"] = res.distribution.get("raises", 0) + int(want.startswith("err="))
+        if got != want:
+            res.disagreements.append(Disagreement("S07-generated-crop", {"stream": "S07-generated-crop", "request": req, "index": [str(i) for i in idx]}, got, want, None,
+                                                  "regenerated crop_to_target_areas (Lean) and the Python function (scripted clip) disagree"))
+    res.samples = [{"request": reqs[0], "response": resps[0][:200]}] if reqs else []
+    return res
+
+
+STREAMS = [s07_crop, s07_network, s07_generated, s07_generated_crop]
 
 
 def _rebuild(case):
@@ -332,6 +416,9 @@ def _rebuild(case):
 def replay(ctx, stream, case):
     if stream == "S07-generated":
         r = s07_generated(ctx)
+        return r.disagreements[0] if r.disagreements else None
+    if stream == "S07-generated-crop":
+        r = s07_generated_crop(ctx)
         return r.disagreements[0] if r.disagreements else None
     import_fractopo()
     gdf, areas = _rebuild(case)
